@@ -95,7 +95,7 @@ def _bits(a):
 class Tabulated(Sub):
     name = 'tabulated'
     doc = 'FromArray / FromFile on matching and mismatching grids, calculate level and PRISM level'
-    budget = {'quick': 800, 'thorough': 48000}
+    budget = {'quick': 800, 'thorough': 320000}
 
     def strategy(self, tier):
         return spec_strategy(64 if tier == 'quick' else 512)
